@@ -151,3 +151,15 @@ Example C16_bdef_example :
   let b := mkBD 9 1 0 3 0 255 17 259 0 511 17 66 1000 1066 40 in
   bdef_wf b /\ exists l, bdef_as_blob b = Ok l /\ bdef_from_blob l = Ok b.
 Proof. split; [unfold bdef_wf, u32_max, u64_max; cbn; repeat split; lia|]. eexists. split; vm_compute; reflexivity. Qed.
+
+(* PMTiles header: whatever is accepted is 127 bytes, starts with "PMTiles" 3 and carries known
+   compression and tile-type codes; every well-formed header an encoder writes is accepted as it is *)
+From VT Require Import Model.PMHeader Proofs.PMHeaderProofs.
+Theorem C16_pmtiles_header_bytes :
+  forall h, pmh_wf h -> length (pmh_serialize h) = 127%nat /\ pmh_deserialize (pmh_serialize h) = Ok h.
+Proof. exact pmh_roundtrip. Qed.
+Print Assumptions C16_pmtiles_header_bytes.
+Theorem C16_pmtiles_header_accepts : forall l h, pmh_deserialize l = Ok h ->
+  length l = 127%nat /\ firstn 8 l = pm_magic /\ (p_icomp h <= 4 /\ p_tcomp h <= 4 /\ p_type h <= 5)%N.
+Proof. exact pmh_accepts. Qed.
+Print Assumptions C16_pmtiles_header_accepts.
